@@ -560,12 +560,21 @@ func (w *FWorld) drawTokenSet(t *rapid.T) *FCmd {
 
 func (w *FWorld) drawTokenDelete(t *rapid.T) *FCmd {
 	existing := w.tokens()
+	var expired structs.ACLTokens // what the leader's reaper would delete: expired as of the leader's clock
+	for _, tok := range existing {
+		if tok.HasExpirationTime() && tok.ExpirationTime.Before(w.Clock) {
+			expired = append(expired, tok)
+		}
+	}
 	var ids []string
 	n := pick(t, "ntokdel", []int{1, 1, 2})
 	for i := 0; i < n; i++ {
 		id := ghostID
 		if len(existing) > 0 && chance(t, "tokdellive", 85) {
 			id = pick(t, "tokdel", existing).AccessorID
+		}
+		if len(expired) > 0 && chance(t, "tokreap", 60) {
+			id = pick(t, "tokreappick", expired).AccessorID
 		}
 		if id == acl.AnonymousTokenID {
 			continue // refused by the endpoint
@@ -1401,26 +1410,80 @@ func (w *FWorld) DrawConfigExtra(t *rapid.T) *FCmd {
 }
 
 
-// DrawBoundSession creates a session bound to a live, non-critical health check of its node (registering such a
-// check first when there is none): the sessions whose fate depends on the session-check links.
+// DrawBoundSession works on the sessions whose fate depends on the session-check links: it creates a session bound
+// to a live, non-critical health check of its node — through NodeChecks or, for service-level checks, through
+// ServiceChecks — (registering such a check first when there is none), or ends such a session through its check: the
+// check turns critical, is deregistered, or its service is deregistered.
 func (w *FWorld) DrawBoundSession(t *rapid.T) *FCmd {
 	type cand struct {
 		node  string
 		check *structs.HealthCheck
 	}
-	var cands []cand
+	var cands, svcCands []cand
 	for _, n := range w.LiveNodes("") {
 		for _, c := range w.NodeChecks(n.Node, "") {
 			if c.Status != "critical" {
 				cands = append(cands, cand{n.Node, c})
+				if c.ServiceID != "" {
+					svcCands = append(svcCands, cand{n.Node, c})
+				}
 			}
 		}
 	}
-	if len(cands) == 0 {
+	// end a bound session through its check
+	_, sessions, _ := w.Store.SessionList(nil, nil)
+	var bound, svcBound []*structs.Session
+	for _, s := range sessions {
+		if len(s.ServiceChecks) > 0 {
+			svcBound = append(svcBound, s)
+		}
+		if len(s.CheckIDs()) > 0 {
+			bound = append(bound, s)
+		}
+	}
+	if len(bound) > 0 && chance(t, "bskill", 40) {
+		victim := pick(t, "bsvictim", bound)
+		if len(svcBound) > 0 && chance(t, "bssvcvictim", 70) {
+			victim = pick(t, "bssvcvictimpick", svcBound)
+		}
+		ids := victim.CheckIDs()
+		id := ids[rapid.IntRange(0, len(ids)-1).Draw(t, "bskillcheck")]
+		var cur *structs.HealthCheck
+		for _, c := range w.NodeChecks(victim.Node, "") {
+			if c.CheckID == id {
+				cur = c
+			}
+		}
+		switch k := rapid.IntRange(0, 9).Draw(t, "bskillpath"); {
+		case k <= 4 && cur != nil: // the check turns critical (anti-entropy sync of the agent)
+			cc := cur.Clone()
+			cc.Status, cc.RaftIndex = "critical", structs.RaftIndex{}
+			reg := &structs.RegisterRequest{Datacenter: fsmDC, Node: victim.Node, SkipNodeUpdate: true, Checks: structs.HealthChecks{cc}, EnterpriseMeta: defaultEM}
+			if c, err := FromOp(NewRegister(w.NextIdx(t), reg)); err == nil {
+				return c
+			}
+		case k <= 7 || cur == nil || cur.ServiceID == "":
+			if c, err := FromOp(NewDereg(DeregCheck, w.NextIdx(t), victim.Node, string(id), "")); err == nil {
+				return c
+			}
+		default:
+			if c, err := FromOp(NewDereg(DeregService, w.NextIdx(t), victim.Node, cur.ServiceID, "")); err == nil {
+				return c
+			}
+		}
+		return nil
+	}
+	if len(cands) == 0 || (len(svcCands) == 0 && chance(t, "bsseedsvc", 60)) {
+		// seed: a node with a passing node-level or service-level check
 		node := pick(t, "bsnode", Nodes)
 		chk := &structs.HealthCheck{Node: node, CheckID: types.CheckID(pick(t, "bscheck", []string{"c1", "c2"})), Status: "passing", EnterpriseMeta: defaultEM}
 		chk.Name = string(chk.CheckID)
 		reg := &structs.RegisterRequest{Datacenter: fsmDC, Node: node, ID: NodeIDs[node], Address: "10.0.0." + node[1:], Checks: structs.HealthChecks{chk}, EnterpriseMeta: defaultEM}
+		if len(svcCands) == 0 || chance(t, "bsseedkind", 50) {
+			name := pick(t, "bsseedsvcname", ServiceNames)
+			reg.Service = &structs.NodeService{Service: name, ID: name + "-1", Port: 8080, Weights: &structs.Weights{Passing: 1, Warning: 1}, EnterpriseMeta: defaultEM}
+			chk.ServiceID, chk.ServiceName = reg.Service.ID, name
+		}
 		c, err := FromOp(NewRegister(w.NextIdx(t), reg))
 		if err != nil {
 			return nil
@@ -1433,8 +1496,11 @@ func (w *FWorld) DrawBoundSession(t *rapid.T) *FCmd {
 	}
 	w.SessUsed[id] = true
 	cd := pick(t, "bscand", cands)
+	if len(svcCands) > 0 && chance(t, "bsprefersvc", 65) {
+		cd = pick(t, "bssvccand", svcCands)
+	}
 	sess := &structs.Session{ID: id, Node: cd.node, Name: pick(t, "bsname", SessionNames), Behavior: pick(t, "bsbehavior", []structs.SessionBehavior{structs.SessionKeysRelease, structs.SessionKeysDelete}), EnterpriseMeta: defaultEM}
-	if cd.check.ServiceID != "" && chance(t, "bsassvc", 50) {
+	if cd.check.ServiceID != "" && chance(t, "bsassvc", 75) {
 		sess.ServiceChecks = []structs.ServiceCheck{{ID: string(cd.check.CheckID)}}
 	} else {
 		sess.NodeChecks = []string{string(cd.check.CheckID)}
